@@ -397,6 +397,11 @@ fn gen_objects(master: u64, job: u64, tier: Tier) -> Vec<(Obj, String)> {
         let (c, _p, raw) = workload::gen_giant_block_stream(&mut rng);
         v.push((Obj::Stream(raw), c.describe()));
     }
+    if job % 8 == 3 {
+        // far matches around the offsets where the 16-bit hash-chain positions are slid down
+        let (c, _p, raw) = workload::gen_reshift_band_stream(&mut rng);
+        v.push((Obj::Stream(raw), format!("reshift-band text, {}", c.describe())));
+    }
     if job % 64 == 5 {
         let (c, _p, raw) = workload::gen_wraparound_block_stream(&mut rng);
         v.push((Obj::Stream(raw), c.describe()));
